@@ -50,6 +50,7 @@ enum Op {
     ScriptConcatAB,   // script: x + y
     ScriptLenA,       // script: l.len()
     IndexA2,          // Rust: a.index(&2)
+    RustEqAA,         // Rust: a == a' (two handles of ONE list: a code path of its own)
 }
 
 const MENU_QUICK: [Op; 10] = [
@@ -86,7 +87,8 @@ const MENU_FULL: [Op; 17] = [
 
 /// The script-side family: every type-erased entry point against the writers
 /// (Rust and script side) and against each other.
-const MENU_SCRIPT: [Op; 10] = [
+const MENU_SCRIPT: [Op; 11] = [
+    Op::RustEqAA,
     Op::ScriptContainsA2,
     Op::ScriptIndexA2,
     Op::ScriptPushA,
@@ -100,7 +102,8 @@ const MENU_SCRIPT: [Op; 10] = [
 ];
 
 /// quick: the type-erased entry points that scan or write, against the relocating pushes
-const MENU_SCRIPT_QUICK: [Op; 6] = [
+const MENU_SCRIPT_QUICK: [Op; 7] = [
+    Op::RustEqAA,
     Op::ScriptContainsA2,
     Op::ScriptIndexA2,
     Op::ScriptPushA,
@@ -150,6 +153,7 @@ impl Op {
             Op::ScriptConcatAB => "script{a + b}",
             Op::ScriptLenA => "script{a.len()}",
             Op::IndexA2 => "a.index(2)",
+            Op::RustEqAA => "a == a'",
         }
     }
 }
@@ -226,6 +230,7 @@ fn model_apply(m: &mut Model, op: Op) -> Res {
         }
         Op::CloneDropA => Res::Unit,
         Op::ScriptEqAB | Op::ScriptEqBA | Op::RustEqAB | Op::RustEqBA => Res::Bool(m.a == m.b),
+        Op::RustEqAA => Res::Bool(true),
         Op::LenA | Op::ScriptLenA => Res::Len(m.a.len()),
         Op::ToVecA => Res::Vec(m.a.clone()),
     }
@@ -301,6 +306,10 @@ fn real_apply(op: Op, a: &List<u64>, b: &List<u64>, s: &Scripts) -> Res {
         Op::ScriptConcatAB => Res::Pending(ListBox(s.concat.call(a.clone(), b.clone()))),
         Op::ScriptLenA => Res::Len(s.len.call(a.clone()) as usize),
         Op::IndexA2 => Res::Idx(a.index(&2).map(|i| i as u64)),
+        Op::RustEqAA => {
+            let a2 = a.clone();
+            Res::Bool(*a == a2)
+        }
     }
 }
 
@@ -1033,8 +1042,33 @@ fn hook_lint() -> Result<(), String> {
         if t.starts_with("//") || !t.contains("from_raw_parts") {
             continue;
         }
-        let hooked = lines[i..(i + 25).min(lines.len())].iter().any(|x| x.contains("crate::verif::slice_use("));
-        if !hooked {
+        let hooked_after = |k: usize| lines[k..(k + 25).min(lines.len())].iter().any(|x| x.contains("crate::verif::slice_use("));
+        if hooked_after(i) {
+            continue;
+        }
+        // the slice may be made by a helper function: then every call site of
+        // that helper must report the use of the slice it gets
+        let helper = lines[..i].iter().rev().find_map(|x| {
+            let x = x.trim_start();
+            let x = x.strip_prefix("pub ").unwrap_or(x);
+            let x = x.strip_prefix("pub(crate) ").unwrap_or(x);
+            let x = x.strip_prefix("unsafe ").unwrap_or(x);
+            x.strip_prefix("fn ").map(|r| r.chars().take_while(|c| c.is_alphanumeric() || *c == '_').collect::<String>())
+        });
+        let mut ok = false;
+        if let Some(h) = helper.filter(|h| !h.is_empty()) {
+            let call = format!("{h}(");
+            let def = format!("fn {h}");
+            let sites: Vec<usize> = lines
+                .iter()
+                .enumerate()
+                .take_while(|(_, x)| !x.contains("#[cfg(test)]"))
+                .filter(|(_, x)| x.contains(&call) && !x.contains(&def) && !x.trim().starts_with("//"))
+                .map(|(k, _)| k)
+                .collect();
+            ok = !sites.is_empty() && sites.iter().all(|k| hooked_after(*k));
+        }
+        if !ok {
             unhooked_slices.push(i + 1);
         }
     }
